@@ -2,9 +2,10 @@
 
 The stream bytes are produced HERE (struct.pack), fed to the real ReadMessage / serve / Listener.Serve
 cut into prescribed chunks, and to the Coq model (Framing.serve on Framing.chunk_by sizes stream).
-Messages up to 4 KiB are compared byte for byte inside Coq; for bodies of about 2 MiB Coq works on
-(type, length) descriptors through the proven closed form (PropC09.C09_boundary_descriptors) and the
-Go harness compares the body bytes itself.
+Messages and replies up to 8 KiB are compared byte for byte inside Coq; for larger bodies/replies Coq works
+on (type, length) descriptors through the proven closed form (PropC09.C09_boundary_reply_descriptors) and
+the Go harness compares the body bytes itself.  Reply and request lengths are swept densely (0..1100, around
+every power of two), and MessageWriter.Write/WriteString are also driven directly.
 """
 import concurrent.futures
 import json
@@ -20,8 +21,7 @@ LEVEL = "proof"
 MAXSZ = 2 << 20
 LENS = [0, 1, 7, 8, 9, 100, 4096]
 TYPES = [0, 1, 2, 3, 4, 5, 6, 7, 255, 256, 65535, 65536, 2 ** 31, 2 ** 32 - 1]
-CLIP_BODY = 5000
-CLIP_WRITTEN = 12000
+SWEEP_MAX = 1100
 LEGACY_REPLY = bytes([0x35, 0x20, 0x30, 0x20, 0x30, 0x0a, 0, 0, 0, 0])
 
 
@@ -31,6 +31,19 @@ def hdr(n, ty):
 
 def fill(n, a, b):
     return bytes((a * i + b) & 0xFF for i in range(n))
+
+
+def cpk(b):
+    """bytes -> Coq term of type list N, written as 7 bytes per primitive 63-bit integer literal (little
+    endian, with a marker bit above the last byte) and unpacked inside Coq: about 15 times cheaper for coqc
+    to read than one numeral per byte, and no limit on the length."""
+    if len(b) == 0:
+        return "(@nil N)"
+    if len(b) <= 8:
+        return cbytes(b)
+    words = ["0x%x" % (int.from_bytes(b[i:i + 7], "little") | (1 << (8 * len(b[i:i + 7])))) for i in range(0, len(b), 7)]
+    groups = ["[" + ";".join(words[i:i + 2000]) + "]" for i in range(0, len(words), 2000)]
+    return "(unpack (" + " ++ ".join(groups) + ")%uint63)"
 
 
 def rtype(rng):
@@ -317,43 +330,122 @@ def gen_cases(rng, tier):
     for keep in (8 + MAXSZ - 1, 8, 9, 8 + (1 << 20)):
         mk(cases, "big-truncated", [small_msg(rng, 8, 2)],
            {"kind": "partial", "msg": bigmsg(MAXSZ, 2), "keep": keep}, [16, 8, 65536], 3, big=True)
+
+    # F. REPLY lengths swept densely: the request's type is the reply length asked for (mode 6), the reply
+    #    a non-constant pattern; several per connection, so a reply that is not exactly one frame also
+    #    shifts the next one.  Every length 0..1100, then 2^k-9..2^k+9.
+    def pat():
+        return bytes([rng.choice([1, 3, 5, 7, 11, 13, 251]), rng.getrandbits(8)])
+
+    def groups(lengths, per):
+        out = []
+        for i in range(0, len(lengths), per):
+            g = lengths[i:i + per]
+            rng.shuffle(g)
+            out.append(g)
+        return out
+
+    def reply_conn(lens, big=False, transport=None):
+        msgs = [{"t": n, "hex": rbody(rng, rng.choice([0, 0, 1, 9])).hex()} for n in lens]
+        total = sum(8 + msg_len(m) for m in msgs)
+        tr = transport or rng.choice(["chunk"] * 8 + ["pipe", "unix"])
+        mk(cases, "reply-sweep" if not big else "big-reply", msgs, NONE,
+           random_sizes(rng, total, rng.choice(["one", "rand", "few"])), 6, fixed=pat(), transport=tr, big=big)
+
+    for g in groups(list(range(0, SWEEP_MAX + 1)), 10):
+        reply_conn(g)
+    for k, per in ((11, 4), (12, 3), (13, 2)):
+        for g in groups([2 ** k + d for d in range(-9, 10)], per):
+            reply_conn(g)
+    for k in (14, 15, 16):                      # descriptor form: the harness compares the reply bodies
+        for g in groups([2 ** k + d for d in range(-9, 10)], 4):
+            reply_conn(g, big=True)
+    for g in ([1 << 20, 505, (1 << 20) + 1, 512], [MAXSZ, 504, 513, MAXSZ - 1], [MAXSZ + 1, 0, 1, 3 << 20]):
+        reply_conn(g, big=True, transport="chunk")
+    reply_conn([70000, 511, 131072], big=True, transport="pipe")
+    reply_conn([65536, 510, 99999], big=True, transport="unix")
+
+    # G. REQUEST lengths swept the same way (bodies by pattern), replies by type (nil / empty / fixed)
+    def req_conn(lens, big=False):
+        msgs = [{"t": rtype(rng), "fill": {"n": n, "a": rng.choice([1, 3, 7, 251]), "b": rng.getrandbits(8)}} for n in lens]
+        total = sum(8 + n for n in lens)
+        sizes = random_sizes(rng, total, rng.choice(["one", "rand", "few", "pow"])) if not big else \
+            rng.choice([[], [8, 1], [65536] * (total // 65536), random_sizes(rng, total, "few")])
+        mk(cases, "request-sweep" if not big else "big-request", msgs, NONE, sizes, rng.choice([5, 5, 0, 3]),
+           fixed=rbody(rng, rng.choice([1, 5, 40])), transport=rng.choice(["chunk"] * 8 + ["pipe", "unix"]), big=big)
+
+    for g in groups(list(range(0, SWEEP_MAX + 1)), 10):
+        req_conn(g)
+    for k, per in ((11, 4), (12, 3), (13, 2)):
+        for g in groups([2 ** k + d for d in range(-9, 10)], per):
+            req_conn(g)
+    for k in (14, 15, 16, 17, 18, 19, 20):
+        for g in groups([2 ** k + d for d in range(-9, 10)], 4 if k <= 16 else 10):
+            req_conn(g, big=True)
     return cases
+
+
+def gen_writers(rng):
+    """H. the exported writer used directly: WriteString (and Write) of every length 0..SWEEP_MAX and around
+    the powers of two, ten calls on one MessageWriter."""
+    lens = list(range(0, SWEEP_MAX + 1)) + [2 ** k + d for k in (11, 12, 13) for d in range(-9, 10)]
+    writers = []
+    for i in range(0, len(lens), 10):
+        g = lens[i:i + 10]
+        rng.shuffle(g)
+        a, b = rng.choice([1, 3, 5, 7, 11, 13, 251]), rng.getrandbits(8)
+        ops = [{"s": rng.random() < 0.8, "len": n, "t": rtype(rng)} for n in g]
+        writers.append({"a": a, "b": b, "ops": ops})
+    return writers
 
 
 # ---------------------------------------------------------------- Coq terms
 
 def cmsg(m):
-    return "(%s, %s)" % (cN(m["t"]), cbytes(msg_body(m)))
+    if "fill" in m:     # body by rule, rebuilt inside Coq (gen_ok compares it with the bytes fed to Go)
+        f = m["fill"]
+        return "(%s, fill %s %s %s)" % (cN(m["t"]), cN(f["n"]), cN(f["a"]), cN(f["b"]))
+    return "(%s, %s)" % (cN(m["t"]), cpk(msg_body(m)))
 
 
 def ctail_small(t):
     if t["kind"] == "none":
         return "TNone"
     if t["kind"] == "bad":
-        return "(TBadHeader %s %s)" % (cbytes(bytes.fromhex(t["hdr"])), cbytes(bytes.fromhex(t.get("extra", ""))))
+        return "(TBadHeader %s %s)" % (cbytes(bytes.fromhex(t["hdr"])), cpk(bytes.fromhex(t.get("extra", ""))))
     m = t["msg"]
     part = (hdr(msg_len(m), m["t"]) + msg_body(m))[:t["keep"]]
-    return "(TPartial %s)" % cbytes(part)
+    return "(TPartial %s)" % cpk(part)
 
 
 def end_code(s):
     return {"eof": 0, "legacy": 1, "error": 2}.get(s, 9)
 
 
+def reply_len(case, m):
+    """length of the reply the case's handler gives to message m, None = nil"""
+    mode, t, n, fx = case["mode"], m["t"], msg_len(m), len(case["fixed"]) // 2
+    if mode == 4:
+        mode = [0, 1, 2, 3, 2][t % 5]
+    elif mode == 5 or mode > 6:
+        mode = [0, 1, 3][t % 3]
+    return {0: None, 1: 0, 2: n, 3: fx, 6: t}[mode]
+
+
 def coq_small_case(case, o):
     stream = stream_bytes(case)
     ms = clist([cmsg(m) for m in case["msgs"]])
-    sent = [(m["t"], msg_body(m)) for m in case["msgs"]]
-    # Observed values longer than anything a small case can legitimately produce are clipped (bodies to
-    # CLIP_BODY, written bytes to CLIP_WRITTEN): they still differ from every expected value, and a list
-    # literal of more than ~20000 elements overflows coqc's stack.
-    assert len(stream) + 10 < CLIP_WRITTEN and all(len(b) < CLIP_BODY for _, b in sent)
-    got = [(d["t"], bytes.fromhex(d.get("hex", ""))[:CLIP_BODY]) for d in o["delivered"]][:64]
-    gdel = "ms" if got == sent else clist(["(%s, %s)" % (cN(t), cbytes(b)) for t, b in got])
-    return ("(let ms : list msg := %s in mk_sc %s %s %s %s ms %s %d%%nat %s %s %s %s %s)"
-            % (ms, cbytes(stream), clist([cN(k) for k in case["sizes"]]), cN(case["mode"]),
-               cbytes(bytes.fromhex(case["fixed"])), ctail_small(case["tail"]), len(case["msgs"]) + 2,
-               gdel, cbytes(bytes.fromhex(o["written"])[:CLIP_WRITTEN]), cbool(o["closed"]), cbool(o["alloc_bounded"]),
+    # Observed values longer than anything this case can legitimately produce are clipped just above that
+    # length: they still differ from every expected value, and the case file stays small when a defect
+    # makes the implementation deliver or write megabytes.
+    max_body = max([msg_len(m) for m in case["msgs"]] + [0]) + 64
+    exp_written = sum(8 + r for r in (reply_len(case, m) for m in case["msgs"]) if r is not None) + 10 + 64
+    got = [(d["t"], bytes.fromhex(d.get("hex", ""))[:max_body]) for d in o["delivered"]][:len(case["msgs"]) + 8]
+    gdel = clist(["(%s, %s)" % (cN(t), cpk(b)) for t, b in got])
+    return ("(mk_sc %s %s %s %s %s %s %d%%nat %s %s %s %s %s)"
+            % (cpk(stream), clist([cN(k) for k in case["sizes"]]), cN(case["mode"]),
+               cbytes(bytes.fromhex(case["fixed"])), ms, ctail_small(case["tail"]), len(case["msgs"]) + 2,
+               gdel, cpk(bytes.fromhex(o["written"])[:exp_written]), cbool(o["closed"]), cbool(o["alloc_bounded"]),
                cN(end_code(o["end"]))))
 
 
@@ -371,21 +463,46 @@ def coq_big_case(case, o):
         first8 = hdr(msg_len(m), m["t"])[:min(8, t["keep"])]
         tl, td = "(TPartial %s)" % cbytes(first8), "(DPartial %s %s)" % (cbytes(first8), cN(t["keep"]))
     gdel = clist(["(%s, %s)" % (cN(d["t"]), cN(d["n"])) for d in o["delivered"]])
-    return ("(mk_bc %s %s %s %s %s %s %s %s %s %s %s %s)"
-            % (ds, hdrs, tl, td, cN(case["mode"]), cbytes(bytes.fromhex(case["fixed"])), gdel,
-               cbool(o["bodies_ok"]), cbytes(bytes.fromhex(o["written"])[:CLIP_WRITTEN]), cbool(o["closed"]),
-               cbool(o["alloc_bounded"]), cN(end_code(o["end"]))))
+    frames = clist(["(%s, %s)" % (cN(d["t"]), cN(d["n"])) for d in (o.get("frames") or [])])
+    return ("(mk_bc %s %s %s %s %s %s %s %s %s %s %s %s %s %s)"
+            % (ds, hdrs, tl, td, cN(case["mode"]), cN(len(case["fixed"]) // 2), gdel,
+               cbool(o["bodies_ok"]), frames, cbool(o.get("replies_ok", False)), cbytes(bytes.fromhex(o.get("left", ""))),
+               cbool(o["closed"]), cbool(o["alloc_bounded"]), cN(end_code(o["end"]))))
 
 
-PRELUDE = """From Coq Require Import NArith List Bool.
+def coq_writer_case(w, o):
+    ops = clist(["(%s, %s)" % (cN(op["t"]), cN(op["len"])) for op in w["ops"]])
+    exp = sum(8 + op["len"] for op in w["ops"]) + 64
+    return "(mk_wc %s %s %s %s)" % (ops, cN(w["a"]), cN(w["b"]), cpk(bytes.fromhex(o["written"])[:exp]))
+
+
+PRELUDE = """From Coq Require Import Uint63 ZArith NArith List Bool.
 From Verif Require Import Common Framing.
 Import ListNotations.
 Open Scope N_scope.
+(* byte strings arrive packed 7 bytes per primitive integer (marker bit above the last byte) *)
+Fixpoint unpack_word (fuel : nat) (w : int) : list N :=
+  match fuel with
+  | O => []
+  | S f => if Uint63.leb w 1%uint63 then []
+           else Z.to_N (Uint63.to_Z (Uint63.land w 255%uint63)) :: unpack_word f (Uint63.lsr w 8%uint63)
+  end.
+Definition unpack (ws : list int) : bytes := flat_map (unpack_word 8) ws.
 Record scase := mk_sc { c_stream : bytes; c_sizes : list N; c_mode : N; c_fixed : bytes; c_ms : list msg;
   c_tail : tail; c_fuel : nat; g_del : list msg; g_written : bytes; g_closed : bool; g_alloc : bool; g_end : N }.
 Record bcase := mk_bc { b_ds : list desc; b_hdrs : list bytes; b_tail : tail; b_td : tail_d; b_mode : N;
-  b_fixed : bytes; gd_del : list desc; gd_bodies : bool; gd_written : bytes; gd_closed : bool; gd_alloc : bool;
-  gd_end : N }.
+  b_fixed_len : N; gd_del : list desc; gd_bodies : bool; gd_frames : list desc; gd_replies : bool;
+  gd_left : bytes; gd_closed : bool; gd_alloc : bool; gd_end : N }.
+(* direct calls of MessageWriter.Write / WriteString on one writer: (type, length) per call, pattern a b *)
+Record wcase := mk_wc { w_ops : list (N * N); w_a : N; w_b : N; gw_written : bytes }.
+Definition corr_ok_w (c : wcase) : bool :=
+  bytes_eqb (concat (map (fun op => write_message (fst op) (fill (snd op) (w_a c) (w_b c))) (w_ops c))) (gw_written c).
+Definition prop_ok_w (c : wcase) : bool :=
+  forallb (fun b => b <? 256) (gw_written c) &&
+  match replies_framedb (map (fun op => (fst op, Some (fill (snd op) (w_a c) (w_b c)))) (w_ops c)) (gw_written c) with
+  | Some rest => bytes_eqb rest []
+  | None => false
+  end.
 (* the bytes fed to the implementation are the encoding the theorems speak about *)
 Definition gen_ok (c : scase) : bool :=
   bytes_eqb (c_stream c) (encode (c_ms c) ++ tail_bytes (c_tail c)) && input_ok (c_ms c) (c_tail c).
@@ -406,31 +523,36 @@ Fixpoint hdrs_ok (ds : list desc) (hs : list bytes) : bool :=
   end.
 Definition gen_ok_d (c : bcase) : bool := hdrs_ok (b_ds c) (b_hdrs c) && input_ok_d (b_ds c) (b_tail c).
 Definition corr_ok_d (c : bcase) : bool :=
-  match predict_d (mk_dhandler (b_mode c) (b_fixed c)) (b_ds c) (b_td c) with
-  | (ds, w, e, a) => descs_eqb ds (gd_del c) && bytes_eqb w (gd_written c) && (e =? gd_end c)
-                     && Bool.eqb a (gd_alloc c) && gd_closed c && gd_bodies c
+  match predict_dl (mk_lhandler (b_mode c) (b_fixed_len c)) (b_ds c) (b_td c) with
+  | (ds, rs, lft, e, a) => descs_eqb ds (gd_del c) && descs_eqb rs (gd_frames c) && bytes_eqb lft (gd_left c)
+                            && (e =? gd_end c) && Bool.eqb a (gd_alloc c) && gd_closed c && gd_bodies c
+                            && gd_replies c
   end.
 Definition prop_ok_d (c : bcase) : bool :=
-  monitor_d (mk_dhandler (b_mode c) (b_fixed c)) (b_ds c) (b_tail c) (gd_del c) (gd_bodies c)
-            (mk_obs (gd_written c) (gd_closed c) (gd_alloc c)).
+  monitor_dl (mk_lhandler (b_mode c) (b_fixed_len c)) (b_ds c) (b_tail c) (gd_del c) (gd_bodies c)
+             (gd_frames c) (gd_replies c) (gd_left c) (gd_closed c) (gd_alloc c).
 """
 
 
-def coq_shard(name, small, big):
+def coq_shard(name, small, big, writers=()):
     v = PRELUDE
     v += "Definition scases : list scase := %s.\n" % clist(small)
     v += "Definition bcases : list bcase := %s.\n" % clist(big)
+    v += "Definition wcases : list wcase := %s.\n" % clist(list(writers))
     v += """Definition gen_bad := Eval vm_compute in bad_idx gen_ok scases 0.
 Definition corr_bad := Eval vm_compute in bad_idx corr_ok scases 0.
 Definition prop_bad := Eval vm_compute in bad_idx prop_ok scases 0.
 Definition gen_bad_d := Eval vm_compute in bad_idx gen_ok_d bcases 0.
 Definition corr_bad_d := Eval vm_compute in bad_idx corr_ok_d bcases 0.
 Definition prop_bad_d := Eval vm_compute in bad_idx prop_ok_d bcases 0.
+Definition corr_bad_w := Eval vm_compute in bad_idx corr_ok_w wcases 0.
+Definition prop_bad_w := Eval vm_compute in bad_idx prop_ok_w wcases 0.
 Print gen_bad. Print corr_bad. Print prop_bad. Print gen_bad_d. Print corr_bad_d. Print prop_bad_d.
+Print corr_bad_w. Print prop_bad_w.
 """
     rc, out = vlib.coq_eval(name, v, timeout=600)
     res = {}
-    for k in ("gen_bad", "corr_bad", "prop_bad", "gen_bad_d", "corr_bad_d", "prop_bad_d"):
+    for k in ("gen_bad", "corr_bad", "prop_bad", "gen_bad_d", "corr_bad_d", "prop_bad_d", "corr_bad_w", "prop_bad_w"):
         res[k] = vlib.parse_nat_list(vlib.parse_printed(out, k))
     return rc, out, res
 
@@ -504,11 +626,15 @@ def run(chk, replay=None):
         npairs = 1 if chk.tier == "quick" else 10
         tables = [{"a": 0x30 + rng.randint(0, 9), "b": 0x30 + rng.randint(0, 9), "p6": rng.getrandbits(8),
                    "p7": rng.getrandbits(8)} for _ in range(npairs)]
-    json.dump({"cases": [go_case(c) for c in cases], "tables": tables}, open(inp, "w"))
+    if replay:
+        writers = json.load(open(replay)).get("writers", [])
+    else:
+        writers = gen_writers(rng)
+    json.dump({"cases": [go_case(c) for c in cases], "tables": tables, "writers": writers}, open(inp, "w"))
     if os.path.exists(outp):
         os.remove(outp)
     rc, out = vlib.run_go_test(binary, "TestVerifC09", {"VERIF_IN": inp, "VERIF_OUT": outp}, timeout=600)
-    obs, tobs = [], []
+    obs, tobs, wobs = [], [], []
     if os.path.exists(outp):
         for line in open(outp):
             line = line.strip()
@@ -517,8 +643,8 @@ def run(chk, replay=None):
                     rec = json.loads(line)
                 except ValueError:
                     break
-                (tobs if "table" in rec else obs).append(rec)
-    if rc != 0 or len(obs) != len(cases) or len(tobs) != len(tables):
+                (tobs if "table" in rec else wobs if "writer" in rec else obs).append(rec)
+    if rc != 0 or len(obs) != len(cases) or len(tobs) != len(tables) or len(wobs) != len(writers):
         if len(obs) < len(cases):
             c = cases[len(obs)]
             chk.fail("crash_case_%d.json" % c["id"],
@@ -528,24 +654,28 @@ def run(chk, replay=None):
             chk.fail("harness_run.txt", "harness TestVerifC09 failed (rc=%d):\n%s" % (rc, out[-4000:]), no_input=True)
         cases = cases[:len(obs)]
         tables = tables[:len(tobs)]
-        if not cases and not tables:
+        writers = writers[:len(wobs)]
+        if not cases and not tables and not writers:
             return
 
     # ---- evaluate model + monitor inside Coq, sharded
     small = [(c, o) for c, o in zip(cases, obs) if not c["big"]]
     big = [(c, o) for c, o in zip(cases, obs) if c["big"]]
-    nshard = max(1, min(8, len(small) // 300))
+    nshard = max(1, min(10, len(small) // 300))
     shards = [small[i::nshard] for i in range(nshard)]
+    wshards = [list(zip(writers, wobs))[i::nshard] for i in range(nshard)]
     jobs = []
     with concurrent.futures.ThreadPoolExecutor(max_workers=nshard + 1) as ex:
         for si, sh in enumerate(shards):
             sm = [coq_small_case(c, o) for c, o in sh]
             bg = [coq_big_case(c, o) for c, o in big] if si == 0 else []
-            jobs.append((sh, big if si == 0 else [], ex.submit(coq_shard, "cases_c09_%d" % si, sm, bg)))
+            wr = [coq_writer_case(w, o) for w, o in wshards[si]]
+            jobs.append((sh, big if si == 0 else [], wshards[si], ex.submit(coq_shard, "cases_c09_%d" % si, sm, bg, wr)))
         full = [(ti, to) for ti, to in zip(tables, tobs) if not to.get("aborted")]
         tfut = ex.submit(coq_tables, [x for x, _ in full], [y for _, y in full]) if full else None
     gen_bad, corr_bad, prop_bad, eval_fail = [], [], [], []
-    for sh, bg, fut in jobs:
+    corr_bad_w, prop_bad_w = [], []
+    for sh, bg, ws, fut in jobs:
         rc2, cout, res = fut.result()
         if rc2 != 0 or any(v is None for v in res.values()):
             eval_fail.append(cout[-3000:])
@@ -554,6 +684,8 @@ def run(chk, replay=None):
                                ("gen_bad_d", gen_bad, bg), ("corr_bad_d", corr_bad, bg), ("prop_bad_d", prop_bad, bg)):
             for i in res[key]:
                 dst.append(pool[i])
+        corr_bad_w += [ws[i] for i in res["corr_bad_w"]]
+        prop_bad_w += [ws[i] for i in res["prop_bad_w"]]
     tres = {"table_corr_bad": [], "table_prop_bad": []}
     if tfut is not None:
         rc3, tout, tres = tfut.result()
@@ -569,8 +701,14 @@ def run(chk, replay=None):
                        "(+ trailing bytes) / a proper prefix of one more frame; cut into chunks: every split-point set "
                        "of the tiny streams (exhaustive), 1-byte chunks, header split at each offset 1..7, empty "
                        "chunks, random; served by the real serve()/Listener.Serve with a recording handler "
-                       "(nil / empty / echo / fixed / by-type replies). Non-trivial = non-empty stream; distinct by "
-                       "(stream, chunk sizes, reply mode, transport)")
+                       "(nil / empty / echo / fixed / by-type replies / reply of the length the request's type asks for, "
+                       "pattern content). Dense sweeps: REPLY lengths 0..1100 (every length) and 2^k-9..2^k+9 for "
+                       "k=11..13 byte-for-byte in Coq, k=14..16 and 1 MiB / 2 MiB on descriptors (harness compares "
+                       "bodies), ten (or fewer large) replies per connection; REQUEST lengths 0..1100 and 2^k-9..2^k+9 "
+                       "for k=11..13 byte-for-byte, k=14..20 on descriptors; MessageWriter.Write/WriteString called "
+                       "directly for every length 0..1100 and around 2^11..2^13, ten calls per writer. Byte strings "
+                       "reach Coq packed 7 bytes per primitive integer and are unpacked there. Non-trivial = "
+                       "non-empty stream; distinct by (stream, chunk sizes, reply mode, transport)")
     dist, tdist = {}, {}
     for c in cases:
         proj = {"k": c["kind"], "m": [(m["t"], m.get("hex", m.get("fill"))) for m in c["msgs"]], "t": c["tail"],
@@ -599,6 +737,13 @@ def run(chk, replay=None):
                           "size was allocated)",
                   "sent_type_len": sent, "tail": c["tail"]["kind"], "observed": o, "cases": [c]},
                  sig="c09-" + c["kind"])
+    for k, (w, o) in enumerate(prop_bad_w[:5]):
+        chk.fail("writer_%d.json" % k,
+                 {"what": "MessageWriter.Write/WriteString did not write exactly le32(len) ++ le32(type) ++ body for "
+                          "each call (calls in order; s = WriteString; body byte i = (a*i+b) mod 256)",
+                  "calls": w["ops"], "returned_counts": o["counts"], "written_len": len(o["written"]) // 2,
+                  "expected_len": sum(8 + op["len"] for op in w["ops"]), "cases": [], "writers": [w]},
+                 sig="c09-writer")
     for ti, to in zip(tables, tobs):
         if to.get("aborted"):
             chk.fail("table_alloc.json",
@@ -617,6 +762,9 @@ def run(chk, replay=None):
                       "header_bytes": h, "bytes_4_5_values_first_5": bad, "cases": [], "tables": [ti]},
                      sig="c09-legacy-table")
     broken = []
+    if corr_bad_w:
+        broken.append("correspondence Framing.write_message vs MessageWriter.Write/WriteString differs for %s"
+                      % json.dumps([w for w, _ in corr_bad_w[:3]])[:1500])
     if any(tres["table_corr_bad"]):
         broken.append("correspondence Framing.serve vs serve() differs on header bytes 4-5 values %s (tables %s)"
                       % (tres["table_corr_bad"], tables))
@@ -636,10 +784,15 @@ def run(chk, replay=None):
     if broken and not chk.violations and not chk.known_hits:
         chk.fail("broken.txt", "\n\n".join(broken), no_input=True)
     chk.cov["disagreements"] = {"gen": len(gen_bad), "corr": len(corr_bad), "prop": len(prop_bad), "rm_loop": len(incons),
+                                "writer_corr": len(corr_bad_w), "writer_prop": len(prop_bad_w),
                                 "table_corr": sum(len(b) for b in tres["table_corr_bad"]),
                                 "table_prop": sum(len(b) for b in tres["table_prop_bad"])}
     chk.cov["exhaustive_header_tables"] = {"digit_pairs": [(chr(t["a"]), chr(t["b"])) for t in tables],
                                            "headers_each": 65536}
+    chk.cov["writer_sweeps"] = {"writers": len(writers), "calls": sum(len(w["ops"]) for w in writers),
+                                "WriteString_calls": sum(1 for w in writers for op in w["ops"] if op["s"])}
+    for w in writers:
+        chk.count_case(w, nontrivial=True)
     chk.cov["evaluations"] += 65536 * len(tables)
     chk.cov["distinct_nontrivial"] += 65536 * len(tables)
     chk.assumptions += [
@@ -647,5 +800,7 @@ def run(chk, replay=None):
         "writes to the connection succeed (a failed reply write just ends the loop; not modelled)",
         "handler panics (recover in serve) belong to C10 and are not modelled here",
         "allocation is observed as runtime.MemStats.TotalAlloc growth < 1 MiB while ReadMessage handles a bad header",
-        "bodies of about 2 MiB: Coq compares (type, length, end, replies); byte equality is checked by the Go harness",
+        "bodies or replies above 8 KiB+9: Coq compares (type, length) of delivered messages and of the reply frames, "
+        "the bytes after the replies, end class and allocation flag; byte equality of those bodies is checked by the Go harness",
+        "the case files use Coq's primitive 63-bit integers (Uint63) only to carry byte literals; no theorem depends on them",
     ]
